@@ -12,7 +12,7 @@ use kinded::{Kind, Kinded};
 use proc_macro2::{Ident, Span};
 use syn::{
     parenthesized,
-    parse::{Parse, ParseStream},
+    parse::{discouraged::Speculative, Parse, ParseStream},
     spanned::Spanned,
     token::Paren,
     Expr, Lit, Token,
@@ -357,7 +357,11 @@ pub fn parse_number_or_expr<T>(input: ParseStream) -> syn::Result<(ValueOrExpr<T
 where
     T: FromStr,
 {
-    if let Ok((number, span)) = parse_number::<T>(input) {
+    // NOTE: parse_number() advances the stream even when it fails (e.g. it consumes a leading `-`),
+    // so it has to be tried on a fork, otherwise `-CONST` would be parsed as `CONST`.
+    let fork = input.fork();
+    if let Ok((number, span)) = parse_number::<T>(&fork) {
+        input.advance_to(&fork);
         Ok((ValueOrExpr::Value(number), span))
     } else {
         let expr: Expr = input.parse()?;
